@@ -1,5 +1,6 @@
 import Hls.Proofs.Render
 import Hls.Proofs.MasterWrittenRT
+import Hls.Proofs.ParsedMaster
 /-!
 # C04 — a master playlist survives serialise → parse
 
@@ -15,6 +16,8 @@ import Hls.Proofs.MasterWrittenRT
   values in `MasterWF` — strings without quote / line end, integers below 2^64, one of the 67 in-stream
   ids, the tag's own rules — plus two facts about Rust's float formatting (the START offset and the
   three-decimal FRAME-RATE read back) and the verbatim unknown tags.
+* `master_roundtrip_parsed` (text, for everything the parser returns): `MasterWF` itself is derived for
+  every parsed playlist (`Proofs/ParsedMaster`), leaving only the two float facts (`MasterOpen`).
 -/
 namespace Hls.C04
 open Hls
@@ -109,5 +112,20 @@ theorem master_roundtrip_wf (s : Str) (p : MasterPlaylist) (h : parseMaster s = 
 theorem master_fixed_point_wf (s : Str) (p p' : MasterPlaylist) (h : parseMaster s = .ok p) (wf : MasterWF p)
     (h' : parseMaster p.show = .ok p') : p'.show = p.show :=
   master_fixed_point s p p' h (master_written_lines_rt p wf) h'
+
+/-- **the round trip for everything the master parser returns**: whatever text `s` the playlist `p` was parsed
+from, writing `p` and parsing the result gives `p` back, and writing that again gives the same bytes — under
+`MasterOpen p` only: two facts about Rust's float formatting (the EXT-X-START offset and the three-decimal
+FRAME-RATE read back). Everything else `MasterWF` asks for is derived from the fact that `p` came out of the
+parser (`text_lines_mgood`, `assembled_masterWF`). -/
+theorem master_roundtrip_parsed (s : Str) (p : MasterPlaylist) (h : parseMaster s = .ok p) (ho : MasterOpen p) :
+    parseMaster p.show = .ok p := by
+  obtain ⟨rest, ls, _, h2, h3⟩ := parseMaster_ok s p h
+  exact master_roundtrip_wf s p h (assembled_masterWF ls p h3 (text_lines_mgood rest ls h2) ho)
+
+theorem master_fixed_point_parsed (s : Str) (p p' : MasterPlaylist) (h : parseMaster s = .ok p) (ho : MasterOpen p)
+    (h' : parseMaster p.show = .ok p') : p'.show = p.show := by
+  rw [master_roundtrip_parsed s p h ho] at h'
+  cases h'; rfl
 
 end Hls.C04
